@@ -5,6 +5,12 @@
 (* line the diagnostic names.                                                   *)
 EXTENDS GenOutcome, ObsLib
 CONSTANT KnownDeviations
+BadLoc(o) ==
+  LET i == CHOOSE k \in 1..Len(o.locs) : ~LocOK(o.locs[k])
+      x == o.locs[i] IN
+  IF ~x.known THEN "diagnostic-names-a-file-outside-the-document-set"
+  ELSE IF ~(x.line >= 1 /\ x.line <= x.nlines /\ x.col >= 1 /\ x.col <= x.linelen + 1) THEN "position-outside-the-named-file"
+  ELSE "position-is-not-the-start-of-a-node-of-the-named-file"
 Verdict(c) ==
   \* recorded finding: deep nesting is not refused but takes longer than the watchdog
   IF c.op = "nest_deep" /\ "Dev_DeepNestingSuperlinear" \in KnownDeviations
@@ -13,6 +19,8 @@ Verdict(c) ==
   THEN "known=Dev_DeepNestingSuperlinear"
   ELSE IF c.y.kind \notin Terminal THEN "viol-yaml-" \o c.y.kind
   ELSE IF c.hasJson /\ c.j.kind \notin Terminal THEN "viol-json-" \o c.j.kind
+  ELSE IF \E i \in 1..Len(c.y.locs) : ~LocOK(c.y.locs[i]) THEN "viol-yaml-" \o BadLoc(c.y)
+  ELSE IF c.hasJson /\ \E i \in 1..Len(c.j.locs) : ~LocOK(c.j.locs[i]) THEN "viol-json-" \o BadLoc(c.j)
   ELSE IF ~OutcomeOK(c.y, [nlines |-> c.y.nlines, linelen |-> c.y.linelen]) THEN "viol-yaml-position-outside-document"
   ELSE IF c.hasJson /\ ~OutcomeOK(c.j, [nlines |-> c.j.nlines, linelen |-> c.j.linelen]) THEN "viol-json-position-outside-document"
   ELSE IF ~ControlOK(c) THEN "harness-control-document-rejected"
